@@ -18,8 +18,58 @@ static Matrix* apply_op(Matrix* A, const std::string& op) {
     return B;
 }
 
+// block matrices: <fmt> n_rows n_cols b_rows b_cols nnz I1 .. I2 .. V <block values, row-major per block>
+static std::vector<double*>& blocks_of(Matrix* A) {
+    switch (A->format()) { case BCOO: return ((BCOOMatrix*)A)->block_vals; case BSR: return ((BSRMatrix*)A)->block_vals;
+                           case BSC: return ((BSCMatrix*)A)->block_vals; default: throw std::runtime_error("not a block matrix"); } }
+static std::string bmat_str(Matrix* A) {
+    std::ostringstream o;
+    if (A->format() != BCOO && A->format() != BSR && A->format() != BSC) return mat_str(A);
+    std::vector<double*>& bv = blocks_of(A);
+    o << fmt_name(A) << " " << A->n_rows << " " << A->n_cols << " " << A->b_rows << " " << A->b_cols << " " << A->nnz << " I1 ";
+    int n1 = (A->format() == BCOO) ? A->nnz : (int)A->idx1.size();
+    o << ints_str(A->idx1, n1) << " I2 " << ints_str(A->idx2, A->nnz) << " V";
+    int nb = std::min((int)bv.size(), A->nnz);
+    for (int k = 0; k < nb; k++) o << " " << nums_str(bv[k], A->b_size);
+    return o.str();
+}
+static Matrix* apply_bop(Matrix* A, const std::string& op) {
+    if (op == "to_bcoo") return A->to_BCOO();
+    if (op == "to_bsr") return A->to_BSR();
+    if (op == "to_bsc") return A->to_BSC();
+    if (op == "to_coo") return A->to_COO();
+    if (op == "to_csr") return A->to_CSR();
+    if (op == "to_csc") return A->to_CSC();
+    if (op == "copy") return A->copy();
+    if (op == "transpose") {
+        switch (A->format()) { case BCOO: return ((BCOOMatrix*)A)->transpose(); case BSR: return ((BSRMatrix*)A)->transpose();
+                               case BSC: return ((BSCMatrix*)A)->transpose(); case COO: return ((COOMatrix*)A)->transpose();
+                               case CSR: return ((CSRMatrix*)A)->transpose(); case CSC: return ((CSCMatrix*)A)->transpose();
+                               default: throw std::runtime_error("fmt"); } }
+    Matrix* B = A->copy();
+    if (op == "sort") B->sort();
+    else if (op == "move_diag") B->move_diag();
+    else if (op == "remove_duplicates") B->remove_duplicates();
+    else throw std::runtime_error("op " + op);
+    return B;
+}
+
 static void run_case(const std::string& cid, Toks& t) {
     std::string op = t.next();
+    if (op == "bchain") {
+        // cid bchain bfmt nbr nbc br bc nblk (I J v*(br*bc))* k op1..opk ; operands are deleted as soon as they are replaced
+        // (a result that shared block storage with its operand would be a double free / use after free here)
+        std::string bfmt = t.next(); int nbr = t.next_int(), nbc = t.next_int(), br = t.next_int(), bc = t.next_int(), nblk = t.next_int();
+        BCOOMatrix* A0 = new BCOOMatrix(nbr, nbc, br, bc);
+        for (int k = 0; k < nblk; k++) { int I = t.next_int(), J = t.next_int(); std::vector<double> v = t.nums(br * bc); A0->add_value(I, J, v.data()); }
+        Matrix* A = A0;
+        if (bfmt == "bsr") A = A0->to_BSR(); else if (bfmt == "bsc") A = A0->to_BSC();
+        if (A != A0) delete A0;
+        int k = t.next_int();
+        for (int i = 0; i < k; i++) { Matrix* B = apply_bop(A, t.next()); if (B != A) delete A; A = B; }
+        printf("%s R %s\n", cid.c_str(), bmat_str(A).c_str()); delete A;
+        return;
+    }
     if (op == "chain") {
         Matrix* A = parse_mat(t); int k = t.next_int();
         for (int i = 0; i < k; i++) { Matrix* B = apply_op(A, t.next()); if (B != A) delete A; A = B; }
